@@ -42,10 +42,20 @@ func (g *progGen) term(depth int) *term.Term {
 		return term.I(int64(g.pick(3)))
 	case depth <= 0:
 		return term.A(genAtoms[g.pick(len(genAtoms))])
-	case k < 75:
+	case k < 73:
 		return term.C("f", g.term(depth-1))
-	case k < 83:
+	case k < 80:
 		return term.C("g", g.term(depth-1), g.term(depth-1))
+	case k < 83:
+		// the same names at other arities (f/2, f/3, g/1): a head structure must not match them
+		switch g.pick(3) {
+		case 0:
+			return term.C("f", g.term(depth-1), g.term(depth-1))
+		case 1:
+			return term.C("f", g.term(depth-1), g.term(depth-1), g.term(depth-1))
+		default:
+			return term.C("g", g.term(depth-1))
+		}
 	case k < 93:
 		n := g.pick(3)
 		es := make([]*term.Term, n)
